@@ -261,46 +261,20 @@ func c11Stringish(t types.Type) bool {
 	return ok && b.Info()&types.IsString != 0
 }
 
-// digestOf: v is the Digest field of the resolved descriptor, as a digest.Digest or as its String() (go-digest:
-// `func (d Digest) String() string { return string(d) }`).
-func (r *c11Res) digestOf(v ssa.Value) bool {
-	v = c11StripConv(v)
-	if call, ok := v.(*ssa.Call); ok && calleeName(call) == "(digest.Digest).String" && len(call.Call.Args) == 1 {
-		v = c11StripConv(call.Call.Args[0])
-	}
-	switch x := v.(type) {
-	case *ssa.Field:
-		return fieldName(x.X.Type(), x.Field) == "Digest" && r.is(x.X)
-	case *ssa.UnOp:
-		if x.Op != token.MUL {
-			return false
-		}
-		fa, ok := x.X.(*ssa.FieldAddr)
-		if !ok || fieldName(fa.X.Type(), fa.Field) != "Digest" {
-			return false
-		}
-		if al, ok := fa.X.(*ssa.Alloc); ok {
-			return r.cell(al, x)
-		}
-	}
-	return false
-}
-
-// c11DigestEdges: the If edges of the function holding the Resolve on which the very string that was resolved is known to
-// be the resolved digest (`ref == desc.Digest.String()`, `digest.Digest(ref) == desc.Digest`) or known not to be a
-// digest at all (`digest.Parse(ref)` / `digest.Digest(ref).Validate()` returned an error; go-digest: Parse(s) is
-// `d := Digest(s); return d, d.Validate()`).
-func (r *c11Res) digestEdges(fi *FnInfo) map[edgeKey]bool {
-	refV := r.resolve.Call.Args[1]
-	same := func(v ssa.Value) bool { return c11StripConv(v) == refV }
-	return fi.edgesMatching(func(_ string, iff *ssa.If, truth bool) bool {
-		cond := stripNot(iff.Cond, &truth)
+// The digest fact: the very string that was resolved is known to be the resolved digest (`ref == desc.Digest.String()`,
+// `digest.Digest(ref) == desc.Digest`) or known not to be a digest at all (`digest.Parse(ref)` /
+// `digest.Digest(ref).Validate()` returned an error; go-digest: Parse(s) is `d := Digest(s); return d, d.Validate()`).
+// Roles: "ref" the string handed to Resolve, "res" the resolved descriptor, "dig" its digest. Where the two tests are
+// made — inline, in a predicate (`isDigest(ref)`), in a validator (`checkPinned(ref, desc) error`) — is left to
+// c11Fact; the roles travel with the arguments.
+func c11DigestFact() *c11Fact {
+	return &c11Fact{name: "digest", prim: func(fr *c11Frame, cond ssa.Value, truth bool, _ *ssa.If) bool {
 		bo, ok := cond.(*ssa.BinOp)
 		if !ok || (bo.Op != token.EQL && bo.Op != token.NEQ) {
 			return false
 		}
 		equal := (bo.Op == token.EQL) == truth
-		if (same(bo.X) && r.digestOf(bo.Y)) || (same(bo.Y) && r.digestOf(bo.X)) {
+		if (fr.is("ref", bo.X, bo) && fr.is("dig", bo.Y, bo)) || (fr.is("ref", bo.Y, bo) && fr.is("dig", bo.X, bo)) {
 			return equal
 		}
 		var o ssa.Value
@@ -313,7 +287,7 @@ func (r *c11Res) digestEdges(fi *FnInfo) map[edgeKey]bool {
 			return false
 		}
 		call := callOf(o)
-		if call == nil || len(call.Call.Args) != 1 || !same(call.Call.Args[0]) {
+		if call == nil || len(call.Call.Args) != 1 || !fr.is("ref", call.Call.Args[0], call) {
 			return false
 		}
 		switch calleeName(call) {
@@ -321,7 +295,56 @@ func (r *c11Res) digestEdges(fi *FnInfo) map[edgeKey]bool {
 			return !equal // the error is not nil
 		}
 		return false
-	})
+	}}
+}
+
+// frame: the frame of the function that resolves. "ref" is argument 1 of Resolve (through the value-preserving
+// string/Digest conversions), "res" what c11Res.is accepts, "dig" the Digest field of a "res" value, as a Digest or as
+// its String() (go-digest: `func (d Digest) String() string { return string(d) }`).
+func (r *c11Res) frame() *c11Frame {
+	fr := c11NewFrame(r.w, r.resolve.Parent())
+	refV := r.resolve.Call.Args[1]
+	fr.base["ref"] = func(v ssa.Value, _ ssa.Instruction) bool { return v == refV }
+	fr.base["res"] = func(v ssa.Value, _ ssa.Instruction) bool { return r.is(v) }
+	fr.cells["res"] = r.cell
+	fr.deriv["ref"] = func(fr *c11Frame, v ssa.Value, at ssa.Instruction) bool {
+		if s := c11StripConv(v); s != v {
+			return fr.is("ref", s, at)
+		}
+		// go-digest: Parse(s) returns Digest(s) — the same text — next to the verdict of Validate
+		if ex, ok := v.(*ssa.Extract); ok && ex.Index == 0 {
+			if call, ok := ex.Tuple.(*ssa.Call); ok && calleeName(call) == "digest.Parse" && len(call.Call.Args) == 1 {
+				return fr.is("ref", call.Call.Args[0], call)
+			}
+		}
+		return false
+	}
+	fr.deriv["dig"] = func(fr *c11Frame, v ssa.Value, at ssa.Instruction) bool {
+		s := c11StripConv(v)
+		if call, ok := s.(*ssa.Call); ok && calleeName(call) == "(digest.Digest).String" && len(call.Call.Args) == 1 {
+			s = c11StripConv(call.Call.Args[0])
+		}
+		if s != v {
+			return fr.is("dig", s, at)
+		}
+		switch x := v.(type) {
+		case *ssa.Field:
+			return fieldName(x.X.Type(), x.Field) == "Digest" && fr.is("res", x.X, x)
+		case *ssa.UnOp:
+			if x.Op != token.MUL {
+				return false
+			}
+			fa, ok := x.X.(*ssa.FieldAddr)
+			if !ok || fieldName(fa.X.Type(), fa.Field) != "Digest" {
+				return false
+			}
+			if al, ok := fa.X.(*ssa.Alloc); ok {
+				return fr.cell("res", al, x)
+			}
+		}
+		return false
+	}
+	return fr
 }
 
 // ---- the metadata merge ------------------------------------------------------------------------
@@ -335,8 +358,37 @@ type c11M struct {
 	D    ssa.Value      // the descriptor object: the spill of the by-value parameter, or the pointer parameter
 	ptr  bool
 	mPar *ssa.Parameter // the metadata map
-	loop *rangeLoop     // the loop over the metadata
-	annS []*ssa.Store   // stores into D.Annotations
+	loop *rangeLoop     // the loop over the metadata (the one that examines the pairs)
+	add  *rangeLoop     // a second loop over the metadata that does nothing but copy the pairs into a map, if any
+	// the examination of the pairs extracted into a helper: the call that hands the metadata map to it, and the roles
+	// inside it (its metadata parameter, its loop over that parameter)
+	xcall *ssa.Call
+	xm    *c11M
+	annS  []*ssa.Store // stores into D.Annotations
+}
+
+// c11PureCopyLoop: the loop's body is one block that stores this iteration's key and value into a map and goes back
+// to the header (`for k, v := range src { dst[k] = v }`): it cannot be left early and does nothing else.
+func c11PureCopyLoop(rl *rangeLoop) *ssa.MapUpdate {
+	if len(rl.Body.Succs) != 1 || rl.Body.Succs[0] != rl.Header || len(loopBlocks(rl.Header)) != 2 {
+		return nil
+	}
+	var mu *ssa.MapUpdate
+	for _, in := range rl.Body.Instrs {
+		switch x := in.(type) {
+		case *ssa.Extract, *ssa.DebugRef, *ssa.Jump:
+		case *ssa.MapUpdate:
+			kx, _ := x.Key.(*ssa.Extract)
+			vx, _ := x.Value.(*ssa.Extract)
+			if mu != nil || kx == nil || vx == nil || kx.Tuple != ssa.Value(rl.Next) || vx.Tuple != ssa.Value(rl.Next) || kx.Index != 1 || vx.Index != 2 {
+				return nil
+			}
+			mu = x
+		default:
+			return nil
+		}
+	}
+	return mu
 }
 
 func c11MergeRoles(w *World, M *ssa.Function) (*c11M, string) {
@@ -369,13 +421,30 @@ func c11MergeRoles(w *World, M *ssa.Function) (*c11M, string) {
 			}
 		}
 	}
+	// the loops over the metadata: one examines the pairs; a second one is accepted if it only copies them (the
+	// "validate everything, then build" split — c11Union decides whether that copy runs after a complete examination)
 	for _, rl := range rangeLoops(M) {
-		if rl.X == ssa.Value(m.mPar) {
-			if m.loop != nil {
-				return nil, "two loops over the metadata"
-			}
-			rl := rl
+		if rl.X != ssa.Value(m.mPar) {
+			continue
+		}
+		rl := rl
+		switch {
+		case m.loop == nil:
 			m.loop = &rl
+		case m.add == nil && c11PureCopyLoop(&rl) != nil:
+			m.add = &rl
+		case m.add == nil && c11PureCopyLoop(m.loop) != nil:
+			m.add, m.loop = m.loop, &rl
+		default:
+			return nil, "several loops over the metadata"
+		}
+	}
+	// no examining loop here (none at all, or only the pure copy of the pairs): it may live in a helper that is handed
+	// the metadata map (c11M.examiner)
+	if m.loop == nil || (m.add == nil && c11PureCopyLoop(m.loop) != nil) {
+		if call, xm := c11Examiner(w, m); xm != nil {
+			m.xcall, m.xm = call, xm
+			m.add, m.loop = m.loop, nil
 		}
 	}
 	// what happens to the descriptor object
@@ -618,6 +687,23 @@ func c11IntConst(v ssa.Value) (int64, bool) {
 // `p = phi(-1, i); i = p+1; i < n` (range over an array or slice). n is the length of g: the constant array length, or
 // len() of the list.
 func c11CountLoops(fn *ssa.Function, g *ssa.Global) []c11CountLoop {
+	return c11CountLoopsTo(fn, func(bound ssa.Value) bool {
+		if n, isK := c11IntConst(bound); isK {
+			t := g.Type().Underlying().(*types.Pointer).Elem().Underlying()
+			arr, ok := t.(*types.Array)
+			return ok && arr.Len() == n
+		}
+		if call, ok := bound.(*ssa.Call); ok {
+			if bi, ok := call.Call.Value.(*ssa.Builtin); ok && bi.Name() == "len" && c11ListBase(call.Call.Args[0], g) {
+				return true
+			}
+		}
+		return false
+	})
+}
+
+// c11CountLoopsTo: the counting loops of fn whose bound satisfies isLen (the length of the list walked).
+func c11CountLoopsTo(fn *ssa.Function, isLen func(bound ssa.Value) bool) []c11CountLoop {
 	var out []c11CountLoop
 	for _, h := range fn.Blocks {
 		iff, ok := blockTerm(h).(*ssa.If)
@@ -629,18 +715,7 @@ func c11CountLoops(fn *ssa.Function, g *ssa.Global) []c11CountLoop {
 			continue
 		}
 		// the bound
-		okN := false
-		if n, isK := c11IntConst(bo.Y); isK {
-			t := g.Type().Underlying().(*types.Pointer).Elem().Underlying()
-			if arr, ok := t.(*types.Array); ok && arr.Len() == n {
-				okN = true
-			}
-		} else if call, ok := bo.Y.(*ssa.Call); ok {
-			if bi, ok := call.Call.Value.(*ssa.Builtin); ok && bi.Name() == "len" && c11ListBase(call.Call.Args[0], g) {
-				okN = true
-			}
-		}
-		if !okN {
+		if !isLen(bo.Y) {
 			continue
 		}
 		// the index
@@ -686,72 +761,314 @@ func c11CountLoops(fn *ssa.Function, g *ssa.Global) []c11CountLoop {
 	return out
 }
 
-// c11HasPrefixEdges: the If edges on which strings.HasPrefix(key of this metadata pair, element accepted by elem) is false.
-func (m *c11M) hasPrefixFalseEdges(elem func(ssa.Value) bool) map[edgeKey]bool {
-	return m.fi.edgesMatching(func(_ string, iff *ssa.If, truth bool) bool {
-		cond := stripNot(iff.Cond, &truth)
-		call, ok := cond.(*ssa.Call)
-		if !ok || truth || calleeName(call) != "strings.HasPrefix" {
-			return false
-		}
-		return m.iterPart(call.Call.Args[0], 1) && elem(call.Call.Args[1])
-	})
+// ---- the merged map ----------------------------------------------------------------------------
+
+// c11Union: what the merge function does with maps. One fresh map U becomes the Annotations of the descriptor; it
+// receives the annotations handed in (copy loop or maps.Copy — `for k, v := range src { dst[k] = v }` by definition)
+// and the metadata pairs; nothing else is written into a map here.
+//
+// The pairs arrive either one by one, inside the loop that examines them (U[key] = value of the same iteration), or in
+// bulk after that loop (maps.Copy(U, metadata) or a pure copy loop over the metadata). The bulk form takes over every
+// pair, so it is accepted only where control can arrive solely over the exhaustion edge of the examining loop's header
+// (afterExhaustion): a `range` loop takes that edge when every pair has been visited, every visit that returned to the
+// header passed the per-pair gates (merge/existing-key, merge/reserved-prefix), and the metadata map is not written
+// in between (any map write that is not into U is refused here; the ownership rule covers callees).
+type c11Union struct {
+	U             ssa.Value
+	fresh         bool
+	copies, adds  int
+	noDelete      bool
+	copyCall      *ssa.Call  // maps.Copy(U, annotations handed in)
+	copyLoop      *rangeLoop // for k, v := range annotations handed in { U[k] = v }
+	bulk, perPair bool
 }
 
-// reservedByLoop: shape A — a counting loop over the whole reserved list inside the metadata loop.
-//
-// Soundness: (1) from the body of the counting loop, neither its header nor the header of the metadata loop nor a
-// success-capable exit is reachable except over an edge on which HasPrefix(key, list[i]) is false; (2) the metadata
-// iteration completes only over the exit edge of the counting loop's header, which is taken when i has reached len(list).
-// i starts at 0 and grows by one per passage of the header, so every element 0 … len-1 was tested negative.
-func (m *c11M) reservedByLoop(g *ssa.Global) bool {
-	for _, L := range c11CountLoops(m.M, g) {
-		if !loopBlocks(m.loop.Header)[L.Header.Index] {
+func (m *c11M) afterExhaustion(in ssa.Instruction) bool {
+	if in.Block().Index == 0 {
+		return false
+	}
+	if m.xm != nil {
+		// the examining loop lives in a helper: `in` runs only after that helper returned a nil error, and the helper can
+		// return a nil error only over the exhaustion edge of its loop — or with no metadata at all
+		if _, ok := hasLabel(m.fi.GuardsOf(in), c11ErrLabel(m.xcall)); !ok {
+			return false
+		}
+		x := m.xm
+		empty := "EQ(len(" + desc(x.mPar) + "),const:0)"
+		cut := x.fi.edgesMatching(func(l string, _ *ssa.If, _ bool) bool { return l == empty })
+		cut[edgeKey{x.loop.Header.Index, 1}] = true
+		return x.fi.successWitness(Mode{Kind: mErr}, entryState(), cut) == nil
+	}
+	if m.loop == nil {
+		return false
+	}
+	return !m.fi.reachHit(entryState(), map[edgeKey]bool{{m.loop.Header.Index, 1}: true}, blocksOf(in))
+}
+
+// c11Examiner: the module function the merge hands its metadata map to and that loops over it (exactly one such call,
+// exactly one such loop): the "validate everything" phase cut out into a helper. Its last result is an error.
+func c11Examiner(w *World, m *c11M) (*ssa.Call, *c11M) {
+	var call *ssa.Call
+	var xm *c11M
+	for _, ci := range allCalls(m.M) {
+		c, ok := ci.(*ssa.Call)
+		if !ok {
 			continue
 		}
-		cutF := m.hasPrefixFalseEdges(func(v ssa.Value) bool { return c11ListElem(v, g, L.Idx) })
-		if len(cutF) == 0 {
+		h := staticCallee(c)
+		if h == nil || h.Blocks == nil || !w.IsProductFn(h) || h == m.M {
 			continue
 		}
-		start := []state{{L.Body.Index, 0, -1}}
-		if m.fi.reachHit(start, cutF, map[int]bool{L.Header.Index: true, m.loop.Header.Index: true}) {
-			continue
+		for i, a := range c.Call.Args {
+			if a != ssa.Value(m.mPar) || i >= len(h.Params) {
+				continue
+			}
+			for _, rl := range rangeLoops(h) {
+				if rl.X != ssa.Value(h.Params[i]) {
+					continue
+				}
+				if xm != nil {
+					return nil, nil
+				}
+				rl := rl
+				call, xm = c, &c11M{w: w, M: h, fi: w.Info(h), mPar: h.Params[i], loop: &rl}
+			}
 		}
-		all := map[edgeKey]bool{}
-		for e := range cutF {
-			all[e] = true
+	}
+	if xm == nil {
+		return nil, nil
+	}
+	res := xm.M.Signature.Results()
+	if res.Len() == 0 || !isErrorType(res.At(res.Len()-1).Type()) {
+		return nil, nil
+	}
+	return call, xm
+}
+
+// examination: where the pairs are examined — the merge function's own frame and loop, or the helper's, entered with
+// the roles of the arguments ("ann", "sup", "dsc" travel with them) and "key" being the key of its loop's current pair.
+func (m *c11M) examination(fr *c11Frame) (*c11M, *c11Frame) {
+	if m.xm == nil {
+		return m, fr
+	}
+	sub := fr.enter(m.xcall)
+	if sub == nil {
+		return m.xm, nil
+	}
+	x := m.xm
+	sub.base["key"] = func(v ssa.Value, _ ssa.Instruction) bool { return x.iterPart(v, 1) }
+	return x, sub
+}
+
+func (m *c11M) union() *c11Union {
+	u := &c11Union{fresh: len(m.annS) > 0, noDelete: true}
+	for _, s := range m.annS {
+		if u.U != nil && s.Val != u.U {
+			u.fresh = false
 		}
-		cutInto(m.fi, L.Header, all)
-		cutInto(m.fi, m.loop.Header, all)
-		if m.fi.successWitness(Mode{Kind: mErr}, start, all) != nil {
-			continue
+		u.U = s.Val
+	}
+	if _, isMake := u.U.(*ssa.MakeMap); !isMake {
+		u.fresh = false
+	}
+	U, M := u.U, m.M
+	dominates := func(in ssa.Instruction) bool {
+		for _, s := range m.annS {
+			if !c11Before(in, s) {
+				return false
+			}
 		}
-		if c11IterGate(m.fi, m.loop, map[edgeKey]bool{{L.Header.Index, 1}: true}) {
-			return true
+		return true
+	}
+	loopOf := func(n *ssa.Next) *rangeLoop {
+		for _, rl := range rangeLoops(M) {
+			if rl.Next == n {
+				rl := rl
+				return &rl
+			}
 		}
+		return nil
+	}
+	for _, f := range append([]*ssa.Function{M}, closuresOf(M)...) {
+		for _, b := range f.Blocks {
+			for _, in := range b.Instrs {
+				switch x := in.(type) {
+				case *ssa.MapUpdate:
+					kx, _ := x.Key.(*ssa.Extract)
+					vx, _ := x.Value.(*ssa.Extract)
+					switch {
+					case x.Map != U || f != M:
+						u.fresh = false
+					case m.iterPart(x.Key, 1) && m.iterPart(x.Value, 2):
+						u.adds++
+						u.perPair = true
+					case kx != nil && vx != nil && kx.Tuple == vx.Tuple && kx.Index == 1 && vx.Index == 2:
+						n, isNext := kx.Tuple.(*ssa.Next)
+						switch {
+						case isNext && m.origAnn(rangeOperand(n)) && dominates(blockTerm(n.Block())):
+							u.copies++
+							u.copyLoop = loopOf(n)
+						case isNext && m.add != nil && n == m.add.Next && c11PureCopyLoop(m.add) == x && m.afterExhaustion(blockTerm(n.Block())) && dominates(blockTerm(n.Block())):
+							u.adds++
+							u.bulk = true
+						default:
+							u.fresh = false
+						}
+					default:
+						u.fresh = false
+					}
+				case *ssa.Call:
+					if bi, isB := x.Call.Value.(*ssa.Builtin); isB {
+						if bi.Name() == "delete" || bi.Name() == "clear" {
+							u.fresh, u.noDelete = false, false
+						}
+						continue
+					}
+					uses := false
+					for _, a := range x.Call.Args {
+						if a == U && U != nil {
+							uses = true
+						}
+					}
+					if !uses {
+						continue
+					}
+					switch {
+					case calleeName(x) == "maps.Copy" && x.Call.Args[0] == U && m.origAnn(x.Call.Args[1]) && dominates(x) && f == M:
+						u.copies++
+						u.copyCall = x
+					case calleeName(x) == "maps.Copy" && x.Call.Args[0] == U && x.Call.Args[1] == ssa.Value(m.mPar) && dominates(x) && f == M && m.afterExhaustion(x):
+						u.adds++
+						u.bulk = true
+					default:
+						u.fresh = false
+					}
+				}
+			}
+		}
+	}
+	if m.add != nil && !u.bulk {
+		u.fresh = false // a second loop over the metadata that is not the accepted bulk copy
+	}
+	return u
+}
+
+// holdsAnnotations: when `at` runs, U holds at least every annotation handed in: the copy of them into U is complete
+// (the maps.Copy call precedes `at`; the pure copy loop's exhaustion block dominates it) and nothing is ever removed
+// from a map in this function.
+func (u *c11Union) holdsAnnotations(v ssa.Value, at ssa.Instruction) bool {
+	if u.U == nil || v != u.U || !u.noDelete || at == nil {
+		return false
+	}
+	if u.copyCall != nil && at.Parent() == u.copyCall.Parent() && c11Before(u.copyCall, at) {
+		return true
+	}
+	if l := u.copyLoop; l != nil && c11PureCopyLoop(l) != nil && at.Parent() == l.Header.Parent() {
+		return l.Exit == at.Block() || l.Exit.Dominates(at.Block())
 	}
 	return false
 }
 
-// reservedBySearch: shape B — slices.IndexFunc(list[:], pred) < 0 or !slices.ContainsFunc(list[:], pred) with a
-// predicate closure that answers false only if HasPrefix(key, element) is false.
+// frame: the merge function's frame. "key": the key of the current pair of the examining loop; "ann": the annotation
+// map of the descriptor as handed in; "sup": a map that holds at least those annotations (the union map once they have
+// been copied into it).
+func (m *c11M) frame(u *c11Union) *c11Frame {
+	fr := c11NewFrame(m.w, m.M)
+	fr.base["key"] = func(v ssa.Value, _ ssa.Instruction) bool { return m.iterPart(v, 1) }
+	fr.base["ann"] = func(v ssa.Value, _ ssa.Instruction) bool { return m.origAnn(v) }
+	fr.base["sup"] = u.holdsAnnotations
+	// "dsc": the descriptor handed in, by value, read where no store into its Annotations can have run (a helper that is
+	// handed the whole descriptor reads the same annotation map from its Annotations field)
+	fr.base["dsc"] = func(v ssa.Value, _ ssa.Instruction) bool {
+		if m.ptr {
+			return false
+		}
+		if v == ssa.Value(m.dPar) {
+			return true
+		}
+		ld, ok := v.(*ssa.UnOp)
+		if !ok || ld.Op != token.MUL || ld.X != m.D {
+			return false
+		}
+		for _, s := range m.annS {
+			if c11MayPrecede(m.fi, s, ld) {
+				return false
+			}
+		}
+		return true
+	}
+	fr.deriv["ann"] = func(fr *c11Frame, v ssa.Value, _ ssa.Instruction) bool {
+		switch x := v.(type) {
+		case *ssa.Field:
+			return fieldName(x.X.Type(), x.Field) == "Annotations" && fr.is("dsc", x.X, x)
+		case *ssa.UnOp:
+			fa, ok := x.X.(*ssa.FieldAddr)
+			if !ok || x.Op != token.MUL || fieldName(fa.X.Type(), fa.Field) != "Annotations" {
+				return false
+			}
+			if al, ok := fa.X.(*ssa.Alloc); ok {
+				return fr.cell("dsc", al, x) // a variable given the descriptor once and never written, field by field or as a whole
+			}
+		}
+		return false
+	}
+	return fr
+}
+
+// The existing-key fact: this pair's key was looked up (comma-ok) and found absent in the annotations handed in — or
+// in a map that holds at least those ("sup": absent from a superset is absent from the set; that the union map also
+// holds the pairs taken over earlier only refuses more, and map keys of one metadata map are distinct anyway).
+func c11ExistingKeyFact() *c11Fact {
+	return &c11Fact{name: "existing-key", prim: func(fr *c11Frame, cond ssa.Value, truth bool, _ *ssa.If) bool {
+		ex, ok := cond.(*ssa.Extract)
+		if !ok || ex.Index != 1 || truth {
+			return false
+		}
+		lk, ok := ex.Tuple.(*ssa.Lookup)
+		if !ok || !lk.CommaOk || !fr.is("key", lk.Index, lk) {
+			return false
+		}
+		return fr.is("ann", lk.X, lk) || fr.is("sup", lk.X, lk)
+	}}
+}
+
+// ---- the reserved prefixes ---------------------------------------------------------------------
+
+// The reserved-prefix fact: this pair's key starts with no element of the reserved list g. Two primitive shapes:
 //
-// Soundness: the standard library's IndexFunc returns -1 (ContainsFunc: false) only after pred answered false for every
-// element of the slice, and the slice is the whole list; the closure's every false-capable exit carries the fact
-// F(HasPrefix(captured key, its parameter)), and the captured variable is the key of this metadata pair.
-func (m *c11M) reservedBySearch(g *ssa.Global) bool {
-	cut := m.fi.edgesMatching(func(_ string, iff *ssa.If, truth bool) bool {
-		cond := stripNot(iff.Cond, &truth)
+// A — the exhaustion edge of a counting loop over the whole list (index 0, 1, …, len-1; c11CountLoops) in whose body
+// the header can be reached again, without leaving the loop, only over an edge on which HasPrefix(key, list[i]) is
+// false: i starts at 0 and grows by one per passage of the header, so when the header is left with i == len(list)
+// every element was tested negative. (Leaving the loop any other way does not pass this edge.)
+//
+// B — slices.IndexFunc(list[:], pred) < 0 or !slices.ContainsFunc(list[:], pred) with a predicate closure that answers
+// false only if HasPrefix(key, element) is false: the standard library returns -1 (false) only after pred answered false
+// for every element of the slice, and the slice is the whole list.
+func c11ReservedFact(g *ssa.Global) *c11Fact {
+	// the per-element fact inside the predicate: HasPrefix(key, elem) is false
+	elemFact := func() *c11Fact {
+		return &c11Fact{name: "no-prefix", prim: func(fr *c11Frame, cond ssa.Value, truth bool, _ *ssa.If) bool {
+			call, ok := cond.(*ssa.Call)
+			return ok && !truth && calleeName(call) == "strings.HasPrefix" && fr.is("key", call.Call.Args[0], call) && fr.is("elem", call.Call.Args[1], call)
+		}}
+	}
+	return &c11Fact{name: "reserved-prefix", prim: func(fr *c11Frame, cond ssa.Value, truth bool, iff *ssa.If) bool {
+		// A
+		if iff != nil && iff.Cond == cond && !truth {
+			for _, L := range c11CountLoops(fr.fn, g) {
+				if L.Header == iff.Block() && c11ScanNegative(fr, L, g) {
+					return true
+				}
+			}
+		}
+		// B
 		var call *ssa.Call
 		switch x := cond.(type) {
 		case *ssa.Call: // !ContainsFunc
-			if truth {
+			if truth || calleeName(x) != "slices.ContainsFunc" {
 				return false
 			}
 			call = x
-			if calleeName(call) != "slices.ContainsFunc" {
-				return false
-			}
 		case *ssa.BinOp: // IndexFunc < 0, == -1, <= -1 (and the negations on the other edge)
 			c, ok := x.X.(*ssa.Call)
 			n, isK := c11IntConst(x.Y)
@@ -772,41 +1089,43 @@ func (m *c11M) reservedBySearch(g *ssa.Global) bool {
 		if len(call.Call.Args) != 2 || !c11ListBase(call.Call.Args[0], g) {
 			return false
 		}
-		return m.prefixPredicate(call.Call.Args[1])
-	})
-	return c11IterGate(m.fi, m.loop, cut)
+		mc, ok := call.Call.Args[1].(*ssa.MakeClosure)
+		if !ok {
+			return false
+		}
+		sub := fr.closure(mc)
+		if sub == nil || len(sub.fn.Params) != 1 {
+			return false
+		}
+		el := sub.fn.Params[0]
+		sub.base["elem"] = func(v ssa.Value, _ ssa.Instruction) bool { return v == ssa.Value(el) }
+		return elemFact().outcome(sub, c11Outcome{k: 0, want: false})
+	}}
 }
 
-func (m *c11M) prefixPredicate(v ssa.Value) bool {
-	mc, ok := v.(*ssa.MakeClosure)
-	if !ok {
-		return false
-	}
-	g, ok := mc.Fn.(*ssa.Function)
-	if !ok || len(g.Params) != 1 || g.Blocks == nil {
-		return false
-	}
-	s := m.w.Summarize(g, Mode{Kind: mBool, Want: false})
-	if !s.Complete || len(s.Exits) == 0 {
-		return false
-	}
-	for i, b := range mc.Bindings {
-		al, ok := b.(*ssa.Alloc)
-		if !ok || i >= len(g.FreeVars) || !m.iterCell(al, 1) {
-			continue
+// c11ScanNegative: inside the counting loop L, the header is reached again only over an edge on which
+// HasPrefix(key, list[L.Idx]) is false.
+func c11ScanNegative(fr *c11Frame, L c11CountLoop, g *ssa.Global) bool {
+	cut := fr.fi.edgesMatching(func(_ string, iff *ssa.If, truth bool) bool {
+		cond := stripNot(iff.Cond, &truth)
+		call, ok := cond.(*ssa.Call)
+		if !ok || truth || calleeName(call) != "strings.HasPrefix" {
+			return false
 		}
-		want := "F(call:strings.HasPrefix(free:" + g.FreeVars[i].Name() + ",param:" + g.Params[0].Name() + "))"
-		all := true
-		for _, ex := range s.Exits {
-			if _, ok := ex.Checked[want]; !ok {
-				all = false
+		return fr.is("key", call.Call.Args[0], call) && c11ListElem(call.Call.Args[1], g, L.Idx)
+	})
+	if len(cut) == 0 {
+		return false
+	}
+	lb := loopBlocks(L.Header)
+	for bi := range lb {
+		for j, s := range fr.fn.Blocks[bi].Succs {
+			if !lb[s.Index] {
+				cut[edgeKey{bi, j}] = true
 			}
 		}
-		if all {
-			return true
-		}
 	}
-	return false
+	return !fr.fi.reachHit([]state{{L.Body.Index, 0, -1}}, cut, map[int]bool{L.Header.Index: true})
 }
 
 // ---- hex(sha256(x)) ----------------------------------------------------------------------------
@@ -874,6 +1193,628 @@ func c11SumBytes(v ssa.Value) *ssa.Call {
 				return c11SumBytes(st.Val)
 			}
 		}
+	}
+	return nil
+}
+
+// ---- facts decided across helpers --------------------------------------------------------------
+//
+// A gate of the property ("the key is not in the annotations", "the key has no reserved prefix", "the string resolved
+// is the resolved digest or no digest") is a FACT about values that play ROLES (the key of this metadata pair, the
+// annotation map handed in, the string that was resolved, …). Where the fact is established is not part of the
+// property: inline on a branch edge, in a predicate helper (`if isDigest(ref)`), in a validator returning an error
+// (`if err := checkKey(k, ann); err != nil`), in a lookup helper returning (value, ok), or in a closure. The rules
+// therefore ask, per fact, on which branch edges of a frame it is known to hold (c11Fact.edges): an edge qualifies
+// when its condition establishes the fact directly (the fact's `prim`) or when the condition is the outcome of a
+// module function every return of which, with that outcome, lies behind such an edge of its own frame or returns an
+// operand that establishes the fact (c11Fact.outcome) — roles being carried into the callee by the call's arguments
+// (c11Frame.enter) and into a closure by its bindings (c11Frame.closure).
+
+// c11Role decides whether v, used by the instruction at, plays a role in a frame.
+type c11Role func(v ssa.Value, at ssa.Instruction) bool
+
+type c11Frame struct {
+	w      *World
+	fn     *ssa.Function
+	fi     *FnInfo
+	base   map[string]c11Role
+	cells  map[string]func(al *ssa.Alloc, at ssa.Instruction) bool             // root frames: a role-specific judgement on local variables
+	deriv  map[string]func(fr *c11Frame, v ssa.Value, at ssa.Instruction) bool // roles that follow from other roles (same in every frame)
+	depth  int
+	inCell map[*ssa.Alloc]bool
+}
+
+func c11NewFrame(w *World, fn *ssa.Function) *c11Frame {
+	return &c11Frame{w: w, fn: fn, fi: w.Info(fn), base: map[string]c11Role{}, cells: map[string]func(*ssa.Alloc, ssa.Instruction) bool{},
+		deriv: map[string]func(*c11Frame, ssa.Value, ssa.Instruction) bool{}}
+}
+
+func (fr *c11Frame) is(role string, v ssa.Value, at ssa.Instruction) bool {
+	if v == nil {
+		return false
+	}
+	if p := fr.base[role]; p != nil && p(v, at) {
+		return true
+	}
+	if u, ok := v.(*ssa.UnOp); ok && u.Op == token.MUL {
+		if al, ok := u.X.(*ssa.Alloc); ok && fr.cell(role, al, u) {
+			return true
+		}
+	}
+	if d := fr.deriv[role]; d != nil && d(fr, v, at) {
+		return true
+	}
+	return false
+}
+
+// cell: the local variable al holds a value of the role when `at` reads it (or captures it): it is given such a value by
+// one store that precedes `at`, and everything else reads it — closures that capture it included (singleStore).
+func (fr *c11Frame) cell(role string, al *ssa.Alloc, at ssa.Instruction) bool {
+	if f := fr.cells[role]; f != nil && f(al, at) {
+		return true
+	}
+	sv := singleStore(al)
+	if sv == nil || fr.inCell[al] {
+		return false
+	}
+	if fr.inCell == nil {
+		fr.inCell = map[*ssa.Alloc]bool{}
+	}
+	fr.inCell[al] = true
+	defer delete(fr.inCell, al)
+	for _, r := range *al.Referrers() {
+		if st, ok := r.(*ssa.Store); ok && st.Addr == ssa.Value(al) {
+			if at != nil && at.Parent() == st.Parent() && !c11Before(st, at) {
+				return false
+			}
+			return fr.is(role, sv, st)
+		}
+	}
+	return false
+}
+
+// enter: the frame of the static module callee of call; a parameter plays the roles of the argument it receives, a free
+// variable (call of a closure value) those of its binding.
+func (fr *c11Frame) enter(call *ssa.Call) *c11Frame {
+	g := staticCallee(call)
+	if g == nil || g.Blocks == nil || !fr.w.IsProductFn(g) || fr.depth >= 4 {
+		return nil
+	}
+	sub := c11NewFrame(fr.w, g)
+	sub.depth, sub.deriv = fr.depth+1, fr.deriv
+	mc, _ := call.Call.Value.(*ssa.MakeClosure)
+	for name := range fr.roleNames() {
+		params := map[*ssa.Parameter]bool{}
+		for i, a := range call.Call.Args {
+			if i < len(g.Params) && fr.is(name, a, call) {
+				params[g.Params[i]] = true
+			}
+		}
+		var free c11Role
+		if mc != nil {
+			free = fr.freeRole(name, mc)
+		}
+		sub.base[name] = func(v ssa.Value, at ssa.Instruction) bool {
+			if p, ok := v.(*ssa.Parameter); ok && params[p] {
+				return true
+			}
+			return free != nil && free(v, at)
+		}
+	}
+	return sub
+}
+
+func (fr *c11Frame) roleNames() map[string]bool {
+	out := map[string]bool{}
+	for n := range fr.base {
+		out[n] = true
+	}
+	for n := range fr.deriv {
+		out[n] = true
+	}
+	return out
+}
+
+// closure: the frame of a function literal created by mc in this frame.
+func (fr *c11Frame) closure(mc *ssa.MakeClosure) *c11Frame {
+	g, ok := mc.Fn.(*ssa.Function)
+	if !ok || g.Blocks == nil || fr.depth >= 4 {
+		return nil
+	}
+	sub := c11NewFrame(fr.w, g)
+	sub.depth, sub.deriv = fr.depth+1, fr.deriv
+	for name := range fr.roleNames() {
+		sub.base[name] = fr.freeRole(name, mc)
+	}
+	return sub
+}
+
+// freeRole: which free variables of the closure play the role: a captured variable (free variables are pointers to
+// the enclosing function's variables) that holds a value of the role and is only read, or a value bound directly.
+func (fr *c11Frame) freeRole(name string, mc *ssa.MakeClosure) c11Role {
+	g, ok := mc.Fn.(*ssa.Function)
+	if !ok {
+		return nil
+	}
+	byRef, byVal := map[*ssa.FreeVar]bool{}, map[*ssa.FreeVar]bool{}
+	for i, b := range mc.Bindings {
+		if i >= len(g.FreeVars) {
+			break
+		}
+		if al, ok := b.(*ssa.Alloc); ok {
+			if fr.cell(name, al, mc) {
+				byRef[g.FreeVars[i]] = true
+			}
+		} else if fr.is(name, b, mc) {
+			byVal[g.FreeVars[i]] = true
+		}
+	}
+	return func(v ssa.Value, _ ssa.Instruction) bool {
+		if fv, ok := v.(*ssa.FreeVar); ok {
+			return byVal[fv]
+		}
+		if u, ok := v.(*ssa.UnOp); ok && u.Op == token.MUL {
+			if fv, ok := u.X.(*ssa.FreeVar); ok {
+				return byRef[fv]
+			}
+		}
+		return false
+	}
+}
+
+// c11Fact: prim says whether "cond evaluated to truth" establishes the fact in a frame. iff is the branch whose
+// condition cond is (nil when cond is a returned operand).
+type c11Fact struct {
+	name string
+	prim func(fr *c11Frame, cond ssa.Value, truth bool, iff *ssa.If) bool
+	busy map[*ssa.Function]bool
+	seen map[ssa.Value]bool // the conditions that established the fact directly
+}
+
+// prims: the number of distinct conditions that established the fact directly (vacuity guard).
+func (f *c11Fact) prims() int { return len(f.seen) }
+
+// c11Outcome: how a function returned — with a nil error (last result), or with result k (a bool) equal to want.
+type c11Outcome struct {
+	err  bool
+	k    int
+	want bool
+}
+
+func (f *c11Fact) implies(fr *c11Frame, cond ssa.Value, truth bool, iff *ssa.If) bool {
+	if fr == nil || cond == nil {
+		return false
+	}
+	cond = stripNot(cond, &truth)
+	if f.prim(fr, cond, truth, iff) {
+		if f.seen == nil {
+			f.seen = map[ssa.Value]bool{}
+		}
+		f.seen[cond] = true
+		return true
+	}
+	switch x := cond.(type) {
+	case *ssa.Call:
+		if isBoolType(x.Type()) {
+			return f.outcome(fr.enter(x), c11Outcome{k: 0, want: truth})
+		}
+	case *ssa.Extract:
+		if call, ok := x.Tuple.(*ssa.Call); ok && isBoolType(x.Type()) {
+			return f.outcome(fr.enter(call), c11Outcome{k: x.Index, want: truth})
+		}
+	case *ssa.BinOp:
+		if x.Op != token.EQL && x.Op != token.NEQ {
+			return false
+		}
+		var o ssa.Value
+		if isNilConst(x.Y) {
+			o = x.X
+		} else if isNilConst(x.X) {
+			o = x.Y
+		}
+		if o == nil || !isErrorType(o.Type()) || (x.Op == token.EQL) != truth {
+			return false
+		}
+		// o == nil: the call that produced o returned a nil error (its last result)
+		call := callOf(o)
+		if call == nil {
+			return false
+		}
+		if ex, ok := o.(*ssa.Extract); ok {
+			if tup, ok := call.Type().(*types.Tuple); !ok || ex.Index != tup.Len()-1 {
+				return false
+			}
+		}
+		return f.outcome(fr.enter(call), c11Outcome{err: true})
+	}
+	return false
+}
+
+// edges: the branch edges of the frame on which the fact is known.
+func (f *c11Fact) edges(fr *c11Frame) map[edgeKey]bool {
+	return fr.fi.edgesMatching(func(_ string, iff *ssa.If, truth bool) bool {
+		return f.implies(fr, iff.Cond, truth, iff)
+	})
+}
+
+// outcome: every way the frame's function can return with outcome o lies behind an edge on which the fact is known, or
+// returns an operand that establishes it (`return err == nil`), or hands on the verdict of a callee for which the same
+// holds (`return check(x)`). A function that cannot return with that outcome at all satisfies this vacuously.
+func (f *c11Fact) outcome(fr *c11Frame, o c11Outcome) bool {
+	if fr == nil {
+		return false
+	}
+	if f.busy == nil {
+		f.busy = map[*ssa.Function]bool{}
+	}
+	if f.busy[fr.fn] {
+		return false
+	}
+	f.busy[fr.fn] = true
+	defer delete(f.busy, fr.fn)
+	fi := fr.fi
+	cut := f.edges(fr)
+	for st := range fi.reach(entryState(), cut) {
+		b := fr.fn.Blocks[st.b]
+		r, ok := blockTerm(b).(*ssa.Return)
+		if !ok {
+			continue
+		}
+		if o.err {
+			cl, tail, tmode, _ := fi.classify(r, state{st.b, fi.through(b, st.m), st.p}, Mode{Kind: mErr})
+			if cl == clFail {
+				continue
+			}
+			if tail != nil && tmode.Kind == mErr && f.outcome(fr.enter(tail), c11Outcome{err: true}) {
+				continue
+			}
+			return false
+		}
+		if o.k >= len(r.Results) {
+			return false
+		}
+		v := r.Results[o.k]
+		if p, ok := v.(*ssa.Phi); ok && p.Block() == b && st.p >= 0 && st.p < len(p.Edges) {
+			v = p.Edges[st.p]
+		}
+		if k, ok := boolConst(v); ok {
+			if k != o.want {
+				continue
+			}
+			return false
+		}
+		if !f.implies(fr, v, o.want, nil) {
+			return false
+		}
+	}
+	return true
+}
+
+// ---- the annotation generator behind wrappers ----------------------------------------------------
+
+// c11WritesKey: g stores under one of the two annotation keys the generator is responsible for.
+func c11WritesKey(g *ssa.Function, keys ...string) bool {
+	for _, b := range g.Blocks {
+		for _, in := range b.Instrs {
+			if mu, ok := in.(*ssa.MapUpdate); ok {
+				if k, ok := mu.Key.(*ssa.Const); ok && k.Value != nil && k.Value.Kind() == constant.String {
+					for _, want := range keys {
+						if want != "" && constant.StringVal(k.Value) == want {
+							return true
+						}
+					}
+				}
+			}
+		}
+	}
+	return false
+}
+
+func c11IsAnnotationMaker(g *ssa.Function) bool {
+	r := g.Signature.Results()
+	return r.Len() == 2 && strings.HasPrefix(r.At(0).Type().String(), "map[string]string") && isErrorType(r.At(1).Type())
+}
+
+// c11Generator finds the function that fills in the manifest annotations, starting from the module function SignOCI
+// hands Sign's SignerInfo to. A function that does not itself store under the thumbprint / created keys is a wrapper
+// when (c11Wraps) every success-capable exit returns, as result 0, the map one call to another annotation maker
+// returned — that call receives the wrapper's own SignerInfo parameter and its nil error is a fact of the exit — and
+// the wrapper does nothing with that map but return and print it. What the caller receives is then the very map the
+// inner function returned, unchanged, so the rules about the generated values are decided on the inner function.
+func c11Generator(w *World, g *ssa.Function, keys ...string) (gen *ssa.Function, wrappers []*ssa.Function, why string) {
+	for depth := 0; depth < 4; depth++ {
+		if c11WritesKey(g, keys...) {
+			return g, wrappers, ""
+		}
+		inner, reason := c11Wraps(w, g)
+		if inner == nil {
+			return g, wrappers, fnName(g) + " neither stores the generated annotations nor hands on another generator's map: " + reason
+		}
+		wrappers = append(wrappers, g)
+		g = inner
+	}
+	return g, wrappers, "wrapper chain too deep"
+}
+
+func c11Wraps(w *World, g *ssa.Function) (*ssa.Function, string) {
+	var si *ssa.Parameter
+	for _, p := range g.Params {
+		if namedOf(p.Type()) == "core/signature.SignerInfo" {
+			if si != nil {
+				return nil, "two SignerInfo parameters"
+			}
+			si = p
+		}
+	}
+	if si == nil || !c11IsAnnotationMaker(g) {
+		return nil, "not an annotation maker over a SignerInfo"
+	}
+	s := w.Summarize(g, Mode{Kind: mErr})
+	if len(s.Exits) == 0 {
+		return nil, "no success-capable exit"
+	}
+	var inner *ssa.Call
+	for _, ex := range s.Exits {
+		e, ok := ex.Ret.Results[0].(*ssa.Extract)
+		if !ok || e.Index != 0 {
+			return nil, "the exit at " + w.InstrPos(ex.Ret) + " returns " + desc(ex.Ret.Results[0])
+		}
+		call, ok := e.Tuple.(*ssa.Call)
+		if !ok || (inner != nil && call != inner) {
+			return nil, "the exits return different maps"
+		}
+		h := staticCallee(call)
+		if h == nil || h.Blocks == nil || !w.IsProductFn(h) || !c11IsAnnotationMaker(h) {
+			return nil, "the map returned at " + w.InstrPos(ex.Ret) + " is not the result of a module annotation maker"
+		}
+		if _, ok := hasLabel(ex.Checked, c11ErrLabel(call)); !ok {
+			return nil, "the exit at " + w.InstrPos(ex.Ret) + " succeeds although " + desc(call) + " failed"
+		}
+		inner = call
+	}
+	passes := false
+	for _, a := range inner.Call.Args {
+		if a == ssa.Value(si) {
+			passes = true
+		}
+	}
+	if !passes {
+		return nil, "the inner generator does not receive the SignerInfo handed in"
+	}
+	// every Extract #0 of the inner call (there may be several instructions for one value) is only returned or printed
+	for _, r := range *inner.Referrers() {
+		e, ok := r.(*ssa.Extract)
+		if !ok || e.Index != 0 {
+			continue
+		}
+		for _, use := range *e.Referrers() {
+			if _, isRet := use.(*ssa.Return); isRet {
+				continue
+			}
+			if !onlyFormatted(use, 0) {
+				return nil, "the map is used at " + w.InstrPos(use) + " before it is returned"
+			}
+		}
+	}
+	return staticCallee(inner), ""
+}
+
+// ---- the thumbprint list -----------------------------------------------------------------------
+
+// c11Thumbs decides whether a []string value is the list of hex(sha256(cert.Raw)) over the certificates of the chain
+// (role "chain"): built from nothing (nil, or make with length 0) by appends, each inside a loop over the whole chain
+// and each appending the thumbprint of that loop's current element; or preallocated with len(chain) elements every
+// store into which is element i := thumbprint of chain[i] inside such a loop; or the result of a module helper that was
+// handed the chain and builds the list that way (the role travels with the argument).
+type c11Thumbs struct {
+	busy  map[ssa.Value]bool
+	fills int
+}
+
+func (t *c11Thumbs) list(fr *c11Frame, v ssa.Value) bool { return t.listAt(fr, v, false) }
+
+// listAt: initial says that v enters the header of a loop over the chain from outside — the one place where "nothing
+// yet" (nil, or make with length 0) is the right value.
+func (t *c11Thumbs) listAt(fr *c11Frame, v ssa.Value, initial bool) bool {
+	if fr == nil || v == nil {
+		return false
+	}
+	if t.busy == nil {
+		t.busy = map[ssa.Value]bool{}
+	}
+	switch x := v.(type) {
+	case *ssa.Const:
+		return initial && x.IsNil()
+	case *ssa.MakeSlice:
+		if n, ok := c11IntConst(x.Len); ok && n == 0 {
+			return initial
+		}
+	}
+	if t.busy[v] {
+		return true // the loop-carried value, already under examination
+	}
+	t.busy[v] = true
+	switch x := v.(type) {
+	case *ssa.Phi:
+		hdr := false
+		for _, L := range c11ChainLoops(fr) {
+			if L.Header == x.Block() {
+				hdr = true
+			}
+		}
+		for i, e := range x.Edges {
+			if !t.listAt(fr, e, hdr && !x.Block().Dominates(x.Block().Preds[i])) {
+				return false
+			}
+		}
+		return len(x.Edges) > 0
+	case *ssa.MakeSlice:
+		return t.prealloc(fr, x)
+	case *ssa.Call:
+		if bi, ok := x.Call.Value.(*ssa.Builtin); ok {
+			if bi.Name() != "append" || len(x.Call.Args) != 2 || !t.listAt(fr, x.Call.Args[0], false) {
+				return false
+			}
+			els := appendedElems(x.Call.Args[1])
+			for _, el := range els {
+				if !c11ThumbOfCurrent(fr, el, x, nil) {
+					return false
+				}
+			}
+			if len(els) == 0 {
+				return false
+			}
+			t.fills++
+			return true
+		}
+		return t.helper(fr, x, 0)
+	case *ssa.Extract:
+		if call, ok := x.Tuple.(*ssa.Call); ok {
+			return t.helper(fr, call, x.Index)
+		}
+	}
+	return false
+}
+
+// c11ChainLoops: the counting loops 0, 1, …, len(chain)-1 of the frame's function (c11CountLoopsTo: start at 0, step one,
+// left through the header only at len).
+func c11ChainLoops(fr *c11Frame) []c11CountLoop {
+	return c11CountLoopsTo(fr.fn, func(bound ssa.Value) bool {
+		call, ok := bound.(*ssa.Call)
+		if !ok {
+			return false
+		}
+		bi, ok := call.Call.Value.(*ssa.Builtin)
+		return ok && bi.Name() == "len" && fr.is("chain", call.Call.Args[0], call)
+	})
+}
+
+func (t *c11Thumbs) helper(fr *c11Frame, call *ssa.Call, k int) bool {
+	sub := fr.enter(call)
+	if sub == nil {
+		return false
+	}
+	handed := false
+	for _, p := range sub.fn.Params {
+		if sub.is("chain", p, nil) {
+			handed = true
+		}
+	}
+	if !handed {
+		return false
+	}
+	n := 0
+	for _, b := range sub.fn.Blocks {
+		if r, ok := blockTerm(b).(*ssa.Return); ok {
+			if k >= len(r.Results) || !t.list(sub, r.Results[k]) {
+				return false
+			}
+			n++
+		}
+	}
+	return n > 0
+}
+
+// prealloc: make([]string, len(chain)) filled by `out[i] = thumbprint of chain[i]` in a loop over the chain.
+func (t *c11Thumbs) prealloc(fr *c11Frame, mk *ssa.MakeSlice) bool {
+	lc, ok := mk.Len.(*ssa.Call)
+	if !ok {
+		return false
+	}
+	if bi, ok := lc.Call.Value.(*ssa.Builtin); !ok || bi.Name() != "len" || !fr.is("chain", lc.Call.Args[0], lc) {
+		return false
+	}
+	stores := 0
+	for _, r := range *mk.Referrers() {
+		ia, ok := r.(*ssa.IndexAddr)
+		if !ok {
+			continue
+		}
+		for _, rr := range *ia.Referrers() {
+			st, ok := rr.(*ssa.Store)
+			if !ok {
+				continue
+			}
+			if st.Addr != ssa.Value(ia) || !c11ThumbOfCurrent(fr, st.Val, st, ia.Index) {
+				return false
+			}
+			stores++
+		}
+	}
+	if stores == 0 {
+		return false
+	}
+	t.fills++
+	return true
+}
+
+// c11ThumbOfCurrent: el is hex(sha256(chain[i].Raw)) where i is the index of a loop over the whole chain that holds both
+// the instruction `at` and the hash (and, if slot is given, slot is that same index).
+func c11ThumbOfCurrent(fr *c11Frame, el ssa.Value, at ssa.Instruction, slot ssa.Value) bool {
+	sum := c11HexOfSum(el)
+	if sum == nil || sum.Parent() != at.Parent() {
+		return false
+	}
+	u, ok := sum.Call.Args[0].(*ssa.UnOp)
+	if !ok || u.Op != token.MUL {
+		return false
+	}
+	fa, ok := u.X.(*ssa.FieldAddr)
+	if !ok || fieldName(fa.X.Type(), fa.Field) != "Raw" {
+		return false
+	}
+	cu, ok := fa.X.(*ssa.UnOp)
+	if !ok || cu.Op != token.MUL {
+		return false
+	}
+	ia, ok := cu.X.(*ssa.IndexAddr)
+	if !ok || !fr.is("chain", ia.X, ia) {
+		return false
+	}
+	// the index of a counting loop over the whole chain selects the certificate
+	loops := c11ChainLoops(fr)
+	for _, L := range loops {
+		if L.Idx != ia.Index {
+			continue
+		}
+		lb := loopBlocks(L.Header)
+		if lb[at.Block().Index] && lb[sum.Block().Index] && (slot == nil || slot == L.Idx) {
+			return true
+		}
+	}
+	return false
+}
+
+// c11MarshalArg: v is the text of json.Marshal(x) (result 0, through the []byte -> string conversion or a variable
+// assigned once): returns x.
+func c11MarshalArg(v ssa.Value) ssa.Value {
+	for i := 0; i < 6; i++ {
+		switch x := v.(type) {
+		case *ssa.Convert:
+			v = x.X
+			continue
+		case *ssa.ChangeType:
+			v = x.X
+			continue
+		case *ssa.UnOp:
+			if al, ok := x.X.(*ssa.Alloc); ok && x.Op == token.MUL {
+				if sv := singleStore(al); sv != nil {
+					v = sv
+					continue
+				}
+			}
+			return nil
+		case *ssa.Extract:
+			call, ok := x.Tuple.(*ssa.Call)
+			if !ok || x.Index != 0 || calleeName(call) != "encoding/json.Marshal" || len(call.Call.Args) != 1 {
+				return nil
+			}
+			if mi, ok := call.Call.Args[0].(*ssa.MakeInterface); ok {
+				return mi.X
+			}
+			return nil
+		}
+		return nil
 	}
 	return nil
 }
